@@ -128,7 +128,7 @@ EXEC_MODES = {'seq': ([], 'all'), 'j2': (['-j2'], 'all'), 'f': (['-f'], 'nonunit
               'all': (['--all'], 'all'), 'rep': (['--repeat', '2'], 'all'), 'u': (['-u'], 'unit')}
 
 
-def run_exec(kind, shadow, mode):
+def run_exec(kind, shadow, mode, ish=None):
     """A test must RUN inside the very layer object that was declared nearest
     to it (set up through that object's hooks) - also when its module binds
     the layer's name to something else (a layer nested in a class, made by a
@@ -141,6 +141,10 @@ def run_exec(kind, shadow, mode):
              {'n': 'c', 's': 'pass'}, {'n': 'd', 's': 'pass'}, {'n': 'e', 'l': 'L3', 's': 'pass'}, {'n': 'u', 's': 'pass'}]
     tree = [{'c': [{'t': 'a'}, {'t': 'b'}, {'l': 'L2', 'c': [{'t': 'c'}, {'l': 'L1', 'c': [{'t': 'd'}]}]}, {'t': 'e'}, {'t': 'u'}]}]
     want_layer = {'a': 'L1', 'b': 'L2', 'c': 'L2', 'd': 'L1', 'e': 'L3', 'u': None}
+    if ish:
+        # layer objects that are falsy / compared by value
+        for L in layers:
+            L['ish'] = ish
     spec = {'layers': layers, 'tests': tests, 'tree': tree}
     argv, sel = EXEC_MODES[mode]
     res = runrt.run_world(spec, list(argv))
@@ -185,6 +189,9 @@ def cases(tier, seed):
         for shadow in (False, True):
             for mode in EXEC_MODES:
                 yield ['exec', [kind, shadow], mode]
+    for ish in ('len0', 'bool0', 'eq'):
+        for mode in EXEC_MODES:
+            yield ['exec', ['i', False, ish], mode]
     # modules discovered on disk, one of them without test_suite() and with
     # ordinary globals called `layer` / `level` (shared with C03)
     for fi in (0, 1):
@@ -361,7 +368,7 @@ def run_case(case):
             v['sig'] = {'argv': 'disk', 'ux': False}
         return {'evals': 2, 'nontrivial': 2, 'violations': viol, 'outcome': 'disk'}
     if case[0] == 'exec':
-        viol = run_exec(case[1][0], case[1][1], case[2])
+        viol = run_exec(case[1][0], case[1][1], case[2], case[1][2] if len(case[1]) > 2 else None)
         return {'evals': 1, 'nontrivial': 1, 'violations': viol, 'outcome': 'exec'}
     depth, b, argv = case
     spec, info = build_block(depth, b)
